@@ -19,6 +19,19 @@ impl Imm {
     pub fn value(&self) -> i32 {
         self.0
     }
+
+    /// The immediate denoted by `sign * magnitude` (`sign` is 1 or -1).
+    ///
+    /// The number must be representable in 32 bits, as a signed or as an
+    /// unsigned value; it is read as its two's-complement bit pattern.
+    fn from_sign_and_magnitude(sign: i32, magnitude: u32) -> Result<Self, ()> {
+        let value = i64::from(sign) * i64::from(magnitude);
+        if value < i64::from(i32::MIN) {
+            return Err(());
+        }
+        #[allow(clippy::cast_possible_truncation)]
+        Ok(Imm(value as i32))
+    }
 }
 
 impl TryFrom<Token> for Imm {
@@ -109,8 +122,7 @@ impl FromStr for Imm {
                 Err(())
             } else {
                 match u32::from_str_radix(stripped, 16) {
-                    #[allow(clippy::cast_possible_wrap)]
-                    Ok(i) => Ok(Imm(mul * i as i32)),
+                    Ok(i) => Imm::from_sign_and_magnitude(mul, i),
                     Err(_) => Err(()),
                 }
             }
@@ -119,8 +131,7 @@ impl FromStr for Imm {
                 Err(())
             } else {
                 match u32::from_str_radix(stripped, 2) {
-                    #[allow(clippy::cast_possible_wrap)]
-                    Ok(i) => Ok(Imm(mul * i as i32)),
+                    Ok(i) => Imm::from_sign_and_magnitude(mul, i),
                     Err(_) => Err(()),
                 }
             }
@@ -128,8 +139,8 @@ impl FromStr for Imm {
             if s.starts_with('-') {
                 return Err(());
             }
-            match s.parse::<i32>() {
-                Ok(i) => Ok(Imm(mul * i)),
+            match s.parse::<u32>() {
+                Ok(i) => Imm::from_sign_and_magnitude(mul, i),
                 Err(_) => Err(()),
             }
         }
